@@ -219,11 +219,11 @@ theorem spec_setFile (src : Bytes) (ms : MsgSt) (dir name : Bytes) (fd : Option 
   · rw [h]; own
   · rw [h]; own
 
-theorem spec_moveTail (src : Bytes) (dst : Maildir) (dh fd : Handle) (dstname : Bytes) (ms' : MsgSt) (b doutime : Bool)
+theorem spec_moveTail (src : Bytes) (dst : Maildir) (dh fd : Handle) (dstname : Bytes) (ms' : MsgSt) (b : Bool) (mt : Option Nat)
     (T : Trace) (h1 : Own src T ms'.name) (h2 : dstname ∈ createdNames T) :
     wp R (OwnI src)
       (Prog.call (Call.close fd) fun _ =>
-        (if (!b && doutime) = true then Prog.call (Call.utimensat dh dstname) fun r => Prog.ret !isOk r
+        (if (!b && mt.isSome) = true then Prog.call (Call.utimensat dh dstname none mt) fun r => Prog.ret !isOk r
             else Prog.ret b).bind
           fun err2 => if err2 = true then Prog.ret (ms', true) else messageSetFile ms' dst.path dstname none)
       (fun x tr' => Own src tr' x.1.name) T := by
